@@ -75,7 +75,12 @@ impl Gen {
             }
             5..=6 => {
                 *budget -= 1;
-                Node::Pipe { k: 1 + rng.below(5) as u32, spin_between: *rng.pick(&[0u32, 0, 4, 15]) }
+                if rng.chance(1, 5) {
+                    // a flood: more messages than the environment handles in a small batch when it lags
+                    Node::Pipe { k: 24 + rng.below(7) as u32, spin_between: 0 }
+                } else {
+                    Node::Pipe { k: 1 + rng.below(5) as u32, spin_between: *rng.pick(&[0u32, 0, 4, 15]) }
+                }
             }
             7 => {
                 *budget -= 1;
